@@ -16,7 +16,7 @@ import MdModel.CliOpts
 import MdModel.CliDump
 namespace MdModel.Cli
 
-/-! ### `cli io <flags> v:<0|1> hm:<0|1> in:<class> cy:<id|-> out:<id|-> log:<id|-> so:<ok|full|closed|cap:N> lim:<N|-> fs:<id=kind;…|-> H:<pend>:<hex> J:<pend>:<hex> D:<pend>:<hex> M:<pend>:<hex>`
+/-! ### `cli io <flags> v:<0|1> hm:<0|1> lu:<0|1> in:<class> cy:<id|-> out:<id|-> log:<id|-> so:<ok|full|closed|cap:N> lim:<N|-> fs:<id=kind;…|-> H:<pend>:<hex> J:<pend>:<hex> D:<pend>:<hex> M:<pend>:<hex>`
     kinds: `file:<len>:<seed>` | `dir` | `nodir` | `full` | `null`; ids not listed are absent and creatable.
     answer: `exit:<n> so:<len>:<fnv64> se:<diag+diag|-> f:<id>=<absent|nodir|dir|full|null|file:<len>:<fnv64>|log:<empty|nonempty>>;…`
     (ids = those listed in `fs:` and the three path options, sorted; the `--log-file`, when it is not also
@@ -78,7 +78,7 @@ def optPath (pre s : String) : Option (Option Path) :=
 def Diag.name : Diag → String
   | .usage => "usage" | .ioError => "io-error" | .prettyInvalid => "pretty-invalid"
   | .briefInvalid => "brief-invalid" | .readError => "read-error" | .processError => "process-error"
-  | .panicLogged => "panic"
+  | .localDebuginfoError => "local-debuginfo-error" | .panicLogged => "panic"
 
 def Entry.render (isLog : Bool) : Entry → String
   | .absent true => "absent"
@@ -96,11 +96,11 @@ def insertSorted (x : String) : List String → List String
 
 def handleIo (args : List String) : String :=
   match args with
-  | [fl, v, hm, inp, cy, out, lg, so, lim, fsS, h, j, d, m] =>
-    match parseFlags fl, bit? "v:" v, bit? "hm:" hm, (field? "in:" inp).bind parseInput, optPath "cy:" cy,
+  | [fl, v, hm, lu, inp, cy, out, lg, so, lim, fsS, h, j, d, m] =>
+    match parseFlags fl, bit? "v:" v, bit? "hm:" hm, bit? "lu:" lu, (field? "in:" inp).bind parseInput, optPath "cy:" cy,
           optPath "out:" out, optPath "log:" lg, (field? "so:" so).bind parseStdout, field? "lim:" lim,
           (field? "fs:" fsS).bind parseFsSpec, parseRep "H" h, parseRep "J" j, parseRep "D" d, parseRep "M" m with
-    | some f, some voff, some hmd, some i, some cyP, some outP, some logP, some sout, some limS, some fsL,
+    | some f, some voff, some hmd, some lun, some i, some cyP, some outP, some logP, some sout, some limS, some fsL,
       some hr, some jr, some dr, some mr =>
       let limit : Option (Option Nat) := if limS == "-" then some none else limS.toNat?.map some
       match limit with
@@ -114,7 +114,7 @@ def handleIo (args : List String) : String :=
             | none => .absent true,
           limit := fun _ => lim }
         let cfg : Cfg := { flags := f, cyborgPath := cyP.getD "", helpMarkdown := hmd, outputFile := outP,
-                           logFile := logP, verboseOff := voff }
+                           logFile := logP, verboseOff := voff, localUnsupported := lun }
         let reps : Reports := ⟨hr, hr, jr, jr, dr, dr, mr⟩
         let w : World := ⟨fs, sout, []⟩
         let r := run (fun _ => [0x45]) cfg i reps w
@@ -124,7 +124,7 @@ def handleIo (args : List String) : String :=
           id ++ "=" ++ (r.world.fs.entry id).render isLog
         let se := if r.world.stderr.isEmpty then "-" else "+".intercalate (r.world.stderr.map Diag.name)
         s!"exit:{r.exit} so:{r.world.stdout.out.length}:{hex16 (fnv64 r.world.stdout.out)} se:{se} f:{if ids.isEmpty then "-" else ";".intercalate (ids.map showId)}"
-    | _, _, _, _, _, _, _, _, _, _, _, _, _, _ => "bad-op"
+    | _, _, _, _, _, _, _, _, _, _, _, _, _, _, _ => "bad-op"
   | _ => "bad-op"
 
 def handle (_engine : String) (args : List String) : String :=
